@@ -141,6 +141,9 @@ class Program:
             path = os.path.join(repo, PKG, name + ".py")
             src = open(path).read()
             tree = ast.parse(src, filename=path)
+            if os.environ.get("FV_CANON", "1") != "0":
+                from . import normast
+                normast.canon_module(tree)
             self.modules[name] = tree
             self.sources[name] = src
             self.paths[name] = os.path.relpath(path, repo)
